@@ -352,6 +352,22 @@ def main():
             method = [SamplingMethod.INVERSION, SamplingMethod.BINARYSEARCHTREEADAPTED][(ci + rep) % 2]
             traces.append(run_copula_coupling(f"cp{len(traces)}", f"copula{d}d:" + method.name, grid, atoms, d, method,
                                               [rng.choice([0, 8, 16]) for _ in range(d)], [rng.randint(-9, 9) for _ in range(d)], lv))
+    # one distinct axis per dimension (user-built grids): irregular multiples of the step away from the origin
+    for rep in range(2 if quick else 6):
+        d = 2 if rep % 3 != 2 else 3
+        step = 32
+        axes = []
+        for _k in range(d):
+            far_l = -step * rng.choice([2, 3, 4])
+            far_r = step * rng.choice([2, 3, 5])
+            axes.append(np.array([far_l * U, -step * U, 0.0, step * U, far_r * U]))
+        grid = CTMCGrid(h=step * U, origin_coordinate=2, axes=axes)
+        lo = [int(round(a[0] / U)) for a in axes]
+        hi = [int(round(a[-1] / U)) for a in axes]
+        atoms = atomic.joint_atoms_in_box(lo, hi, d, rng, 90 if d == 2 else 140, wmax=4)
+        method = [SamplingMethod.INVERSION, SamplingMethod.BINARYSEARCHTREEADAPTED][rep % 2]
+        traces.append(run_copula_coupling(f"cp{len(traces)}", f"copula{d}d-peraxis:" + method.name, grid, atoms, d, method,
+                                          [rng.choice([0, 8, 16]) for _ in range(d)], [rng.randint(-9, 9) for _ in range(d)], 1 if d == 3 else 2))
     # non-lattice grids (the grid's own cell boundary is not the arithmetic mid-point): atoms are placed after the
     # grids of ALL levels have been seen, one in every elementary interval
     from harness.models import levy_models
